@@ -1035,7 +1035,7 @@ type lexTables struct {
 func (c *Ctx) lexerTables() (*lexTables, error) {
 	fd, p := c.astFunc("input/ast", "LexScanner.ScanFunc")
 	if fd == nil {
-		return nil, fmt.Errorf("input/ast.(*LexScanner).ScanFunc not found")
+		return nil, fmt.Errorf("input/ast.LexScanner.ScanFunc not found")
 	}
 	lt := &lexTables{runeToken: map[rune]string{}, casePos: map[rune]token.Pos{}, pos: fd.Pos()}
 	found := false
@@ -1205,7 +1205,7 @@ func ruleTabLexnames(c *Ctx) {
 		calls := callsIn(fn)
 		hasNote := false
 		for _, ci := range calls {
-			if n := calleeName(ci.Common()); n == "op.ScaleNote.String" || n == "op.(*ScaleNote).String" {
+			if n := calleeName(ci.Common()); n == "op.ScaleNote.String" || n == "op.ScaleNote.String" {
 				hasNote = true
 			}
 		}
